@@ -907,6 +907,8 @@ func init() {
 		runStreamStatus(o, r, n)
 		truncatedUnaryReplies(o)
 		unencodableResponses(o)
+		emptyStreamMessages(o)
+		unaryRecvLimit(o)
 		httpClientSchedules(o, r, n, "HLts")
 		ltsCases(o, r, profile{name: "status", rounds: [2]int{5, 14}, cancel: 10, handlerEnd: 60, headers: 20, kinds: []string{"BD", "SS", "CS"}, returnCodes: []int64{0, 5, 13, -1, 2, 14}}, n)
 		o.Finding = "finding_case"
@@ -922,6 +924,8 @@ func init() {
 		runUnaryStatus(o, r, n/2)
 		runStreamStatus(o, r, n/2)
 		requestMetadata(o, r)
+		headersAfterTheCall(o)
+		everydayTrailerKeys(o)
 		o.Finding = "finding_c03"
 		o.Shard = 60
 	}
@@ -936,6 +940,7 @@ func init() {
 		httpClientSchedules(o, r, n, "HLts")
 		secondRequestRefused(o)
 		noResponseUnary(o)
+		nilAndSkewedSingleResponses(o)
 		singleResponseCuts(o)
 		ltsCases(o, r, profile{name: "single", rounds: [2]int{4, 12}, cancel: 5, handlerEnd: 50, headers: 20, kinds: []string{"CS", "CS", "SS"}, returnCodes: []int64{0, 0, 5, -2}}, n)
 		o.Finding = "finding_case"
@@ -1027,6 +1032,227 @@ func singleResponseCuts(o *hx.Out) {
 				}
 				checked(o, "single_response_reply_cut", id, ok, d)
 			}
+		}
+	}
+}
+
+// emptyStreamMessages: a response message whose encoding is empty (nothing set) is a message like any other: it
+// is delivered, what follows it is delivered, and the handler's failure arrives afterwards with its code
+func emptyStreamMessages(o *hx.Out) {
+	id := 0
+	for _, shape := range [][]int32{{0, 7}, {7, 0}, {0}, {0, 0, 3}} {
+		for _, code := range []codes.Code{codes.NotFound, codes.OK} {
+			svc := &hx.Svc{Stream: func(kind string, ss grpc.ServerStream) error {
+				for _, c := range shape {
+					if err := ss.SendMsg(&hx.Msg{Count: c}); err != nil {
+						return err
+					}
+				}
+				if code == codes.OK {
+					return nil
+				}
+				return status.Error(code, "after the messages")
+			}}
+			for _, t := range bothTransports(svc) {
+				for _, kind := range []string{"SS", "BD"} {
+					ctx, cancel := context.WithTimeout(context.Background(), 5*time.Second)
+					cs, err := t.ch.NewStream(ctx, hx.StreamDescOf(kind), "/verif.Svc/"+kind)
+					var got []int32
+					var final error
+					if err == nil {
+						cs.SendMsg(&hx.Msg{})
+						cs.CloseSend()
+						for {
+							m := &hx.Msg{Count: -1}
+							if e := cs.RecvMsg(m); e != nil {
+								final = e
+								break
+							}
+							got = append(got, m.Count)
+						}
+					} else {
+						final = err
+					}
+					cancel()
+					ok := fmt.Sprint(got) == fmt.Sprint(shape) && ((code == codes.OK && final == io.EOF) || (code != codes.OK && status.Code(final) == code))
+					d := map[string]interface{}{"transport": t.name, "kind": kind, "handler_sends_counts": shape, "handler_returns": code.String(), "received_counts": got, "final": fmt.Sprint(final)}
+					if !ok {
+						o.Violate("a response message with an empty encoding changed what the caller was given", d, fmt.Sprint(got, final), fmt.Sprint(shape, code))
+					}
+					id++
+					checked(o, "empty_stream_message", id, ok, d)
+				}
+				t.stop()
+			}
+		}
+	}
+}
+
+// unaryRecvLimit: whatever receive-size call option accompanies a unary call, the outcome is the response the
+// handler returned, whole, or an error: never a successful call with a different (shortened) response
+func unaryRecvLimit(o *hx.Out) {
+	resp := &hx.Msg{Count: 9, Payload: bytes.Repeat([]byte("0123456789"), 10), Code: 4}
+	svc := &hx.Svc{Unary: func(ctx context.Context, req *hx.Msg) (*hx.Msg, error) { return proto.Clone(resp).(*hx.Msg), nil }}
+	for _, t := range bothTransports(svc) {
+		lims := []int{4096}
+		for l := 1; l <= proto.Size(resp)+2; l++ {
+			lims = append(lims, l)
+		}
+		for _, lim := range lims {
+			out := &hx.Msg{}
+			err := t.ch.Invoke(context.Background(), "/verif.Svc/U", &hx.Msg{Count: 1}, out, grpc.MaxCallRecvMsgSize(lim), grpc.MaxCallSendMsgSize(lim))
+			ok := err != nil || proto.Equal(out, resp)
+			d := map[string]interface{}{"transport": t.name, "kind": "unary", "receive_limit_option": lim, "response_bytes": proto.Size(resp), "received": out.String(), "error": fmt.Sprint(err)}
+			if !ok {
+				o.Violate("a unary call succeeded with a response that is not the one the handler returned", d, out.String(), resp.String())
+			}
+			checked(o, "unary_recv_limit_"+t.name, lim, ok, d)
+		}
+		t.stop()
+	}
+}
+
+// headersAfterTheCall: the response headers stay available for as long as the caller holds the stream: asked
+// for after the call is over (and its context ended), Header() gives what the handler sent, every time
+func headersAfterTheCall(o *hx.Out) {
+	svc := &hx.Svc{Stream: func(kind string, ss grpc.ServerStream) error {
+		ss.SendHeader(metadata.Pairs("k1", "v1", "k2-bin", "\x00\xff"))
+		ss.SendMsg(&hx.Msg{Count: 1})
+		return nil
+	}}
+	for _, t := range bothTransports(svc) {
+		ctx, cancel := context.WithCancel(context.Background())
+		cs, err := t.ch.NewStream(ctx, hx.StreamDescOf("SS"), "/verif.Svc/SS")
+		bad := ""
+		if err == nil {
+			cs.SendMsg(&hx.Msg{})
+			cs.CloseSend()
+			for cs.RecvMsg(&hx.Msg{}) == nil {
+			}
+			cancel()
+			time.Sleep(20 * time.Millisecond)
+			for i := 0; i < 60 && bad == ""; i++ {
+				h, e := cs.Header()
+				if e != nil || len(h.Get("k1")) != 1 || h.Get("k1")[0] != "v1" || len(h.Get("k2-bin")) != 1 || h.Get("k2-bin")[0] != "\x00\xff" {
+					bad = fmt.Sprintf("ask %d: %v %v", i, h, e)
+				}
+			}
+		} else {
+			bad = err.Error()
+		}
+		cancel()
+		d := map[string]interface{}{"transport": t.name, "kind": "SS", "what": "Header() sixty times after the call completed and its context was cancelled", "first_wrong": bad}
+		if bad != "" {
+			o.Violate("the response headers of a completed call were not returned", d, bad, "k1=v1 k2-bin=00ff")
+		}
+		checked(o, "headers_after_the_call_"+t.name, 1, bad == "", d)
+		t.stop()
+	}
+}
+
+// everydayTrailerKeys: trailer and header keys of a unary call arrive under exactly the names the handler used
+func everydayTrailerKeys(o *hx.Out) {
+	keys := []string{"trace-id", "request-id", "retry-after", "elapsed-ms", "api-version", "x-app", "grpc-ish", "t", "-lead", "rate.limit_left", "tag-bin"}
+	svc := &hx.Svc{Unary: func(ctx context.Context, req *hx.Msg) (*hx.Msg, error) {
+		for i, k := range keys {
+			grpc.SetTrailer(ctx, metadata.Pairs(k, fmt.Sprintf("t%d", i)))
+			grpc.SetHeader(ctx, metadata.Pairs(k, fmt.Sprintf("h%d", i)))
+		}
+		if req.Count == 1 {
+			return nil, status.Error(codes.Aborted, "with trailers")
+		}
+		return &hx.Msg{}, nil
+	}}
+	for _, t := range bothTransports(svc) {
+		for c := int32(0); c < 2; c++ {
+			var hdr, tlr metadata.MD
+			err := t.ch.Invoke(context.Background(), "/verif.Svc/U", &hx.Msg{Count: c}, &hx.Msg{}, grpc.Header(&hdr), grpc.Trailer(&tlr))
+			bad := ""
+			for i, k := range keys {
+				if v := tlr.Get(k); len(v) != 1 || v[0] != fmt.Sprintf("t%d", i) {
+					bad += fmt.Sprintf(" trailer %s=%v", k, v)
+				}
+				if v := hdr.Get(k); len(v) != 1 || v[0] != fmt.Sprintf("h%d", i) {
+					bad += fmt.Sprintf(" header %s=%v", k, v)
+				}
+			}
+			if len(tlr) != len(keys) {
+				bad += fmt.Sprintf(" %d trailer keys", len(tlr))
+			}
+			d := map[string]interface{}{"transport": t.name, "kind": "unary", "handler_fails": c == 1, "keys": keys, "wrong": bad, "error": fmt.Sprint(err), "trailers": fmt.Sprint(tlr)}
+			if bad != "" {
+				o.Violate("unary response metadata did not arrive under the keys the handler used", d, bad, "")
+			}
+			checked(o, "everyday_trailer_keys_"+t.name, int(c), bad == "", d)
+		}
+		t.stop()
+	}
+}
+
+// nilAndSkewedSingleResponses: (a) a client-streaming handler that hands a typed nil message to the stream has
+// produced no response: the caller gets an error; (b) the cardinality the caller is entitled to is that of the
+// descriptor IT called with: a single-response call against a method registered as bidi still yields exactly
+// one response or an error
+func nilAndSkewedSingleResponses(o *hx.Out) {
+	id := 7400
+	single := &grpc.StreamDesc{StreamName: "BD", ClientStreams: true}
+	type sc struct {
+		name    string
+		method  string
+		desc    *grpc.StreamDesc
+		handler func(ss grpc.ServerStream) error
+		wantOK  bool
+	}
+	drain := func(ss grpc.ServerStream) {
+		for ss.RecvMsg(&hx.Msg{}) == nil {
+		}
+	}
+	for _, c := range []sc{
+		{"CS handler sends a typed nil message and returns nil", "CS", hx.StreamDescOf("CS"), func(ss grpc.ServerStream) error {
+			drain(ss)
+			var m *hx.Msg
+			if err := ss.SendMsg(m); err != nil {
+				return err
+			}
+			return nil
+		}, false},
+		{"called as single-response, registered as bidi: the handler sends two responses", "BD", single, func(ss grpc.ServerStream) error {
+			drain(ss)
+			ss.SendMsg(&hx.Msg{Count: 1})
+			ss.SendMsg(&hx.Msg{Count: 2})
+			return nil
+		}, false},
+		{"called as single-response, registered as bidi: one response, then NotFound", "BD", single, func(ss grpc.ServerStream) error {
+			drain(ss)
+			ss.SendMsg(&hx.Msg{Count: 1})
+			return status.Error(codes.NotFound, "after the response")
+		}, false},
+		{"called as single-response, registered as bidi: exactly one response", "BD", single, func(ss grpc.ServerStream) error {
+			drain(ss)
+			ss.SendMsg(&hx.Msg{Count: 1})
+			return nil
+		}, true},
+	} {
+		c := c
+		svc := &hx.Svc{Stream: func(kind string, ss grpc.ServerStream) error { return c.handler(ss) }}
+		for _, t := range bothTransports(svc) {
+			ctx, cancel := context.WithTimeout(context.Background(), 3*time.Second)
+			cs, err := t.ch.NewStream(ctx, c.desc, "/verif.Svc/"+c.method)
+			out := &hx.Msg{}
+			if err == nil {
+				cs.SendMsg(&hx.Msg{Count: 3})
+				cs.CloseSend()
+				err = cs.RecvMsg(out)
+			}
+			cancel()
+			ok := (err == nil) == c.wantOK && (!c.wantOK || out.Count == 1)
+			id++
+			d := map[string]interface{}{"transport": t.name, "scenario": c.name, "client_result": fmt.Sprint(err), "received_count": out.Count}
+			if !ok {
+				o.Violate("a single-response call did not end with exactly one response or an error", d, fmt.Sprint(err), map[bool]string{true: "success with the response", false: "an error"}[c.wantOK])
+			}
+			checked(o, "single_response_nil_or_skewed_"+t.name, id, ok, d)
+			t.stop()
 		}
 	}
 }
